@@ -4,8 +4,8 @@ From Coq Require Import List Bool Arith ZArith.
 From Krrood Require Import Base.Sx Onto.ClosureSpec Onto.Closure Onto.ContainerSpec Onto.Container Onto.ContainerProofs Onto.ContainerInfer.
 Import ListNotations. Open Scope nat_scope.
 
-(* for every history of assignment, self-assignment, += / |=, append, extend, insert, item assignment, add, update
-   (any number of iterables), from any contents s whose elements are recorded (a set holding no element twice):
+(* for every history of assignment, self-assignment, += / |=, append, extend (of a list, a one-shot iterator or the field
+   itself), insert, item assignment (index, or a slice given a list or a one-shot iterator), add, update (any number of iterables), from any contents s whose elements are recorded (a set holding no element twice):
    the contents after every operation and the IndexErrors are those of a plain Python list / set, every element of the
    field is recorded in the graph, and nothing recorded is forgotten *)
 Theorem C16_writes : forall k ops s, wf k (items s) -> incl (items s) (rec s) ->
@@ -26,26 +26,19 @@ Theorem C16_inferences : forall Sc n owner f k ops s G, wf k (items s) -> incl (
   forall x, In x (items (snd (Container.run k ops s))) -> forall e, closure Sc [(owner, f, x)] e -> In e G.
 Proof. exact writes_infer. Qed.
 
-(* outside the fragment (not among the listed writes of a field by its owner with fresh arguments): two defects *)
-Theorem C16_refuted_extend_self : forall fuel s, items s <> [] -> extend_live fuel 0 s = None.
-Proof. exact refuted_extend_self. Qed.
-
+(* outside the fragment: a constructor handed ANOTHER object's managed container (known finding C16-d) *)
 Theorem C16_refuted_ctor_alias : exists s x, wf KList (items s) /\ incl (items s) (rec s) /\
   let t := append_q x (ctor_alias s) in In x (shared t) /\ ~ In x (recp t).
 Proof. exact refuted_ctor_alias. Qed.
 
-Theorem C16_refuted_slice_generator : exists s i j vs, wf KList (items s) /\ incl (items s) (rec s) /\ items (setslice_gen i j vs s) <> py_setslice i j vs (items s).
-Proof. exact refuted_slice_generator. Qed.
-
 (* non-vacuity: the three formerly erasing writes, and an assignment with repetitions *)
 Example C16_nonvacuous :
   items (snd (Container.run KList [Assign [2; 1; 0; 1]; AssignSelf; IAug [3]] (init KList []))) = [2; 1; 0; 1; 3] /\
+  items (snd (Container.run KList [ExtendSelf; SetSliceIter 0 1 [3]] (init KList [0; 1]))) = [3; 1; 0; 1] /\
   items (snd (Container.run KSet [Add 1; IAug [2; 1]; Update [[3]; [4; 1]]; AssignSelf] (init KSet [0]))) = [0; 1; 2; 3; 4].
-Proof. split; vm_compute; reflexivity. Qed.
+Proof. repeat split; vm_compute; reflexivity. Qed.
 
 Print Assumptions C16_writes.
 Print Assumptions C16_constructor.
 Print Assumptions C16_inferences.
-Print Assumptions C16_refuted_extend_self.
 Print Assumptions C16_refuted_ctor_alias.
-Print Assumptions C16_refuted_slice_generator.
